@@ -18,16 +18,20 @@ def module_src(rng, k, deps):
     return s
 
 def main_src(rng, nmods):
-    lines = ["global log", "out := []"]
+    lines = ["global(log, apply, applyp)", "out := []"]
     imported = []
     for step in range(rng.randrange(2, 9)):
         m = rng.randrange(1, nmods + 1)
-        k = rng.randrange(7)
+        k = rng.randrange(9)
         v = "v%d" % step
         if k == 0: lines.append("%s := import(\"m%d\")" % (v, m)); imported.append((v, m))
         elif k == 1: lines.append("for i%d := 0; i%d < 3; i%d++ { x := import(\"m%d\"); out = append(out, x.name) }" % (step, step, step, m))
         elif k == 2: lines.append("f%d := func() { return import(\"m%d\") }\n%s := f%d()" % (step, m, v, step)); imported.append((v, m))
         elif k == 3: lines.append("if len(out) %% 2 == 0 { y := import(\"m%d\"); out = append(out, y.get()) }" % m)
+        elif k in (7, 8):
+            # the import is executed on a child VM, inside a Go callback
+            ap = "apply" if k == 7 else "applyp"
+            lines.append("%s := %s(func() { z := import(\"m%d\"); z.set(z.get() + 1); return z })" % (v, ap, m)); imported.append((v, m))
         elif k == 4 and imported:
             a, ma = rng.choice(imported)
             lines.append("%s.set(%d)" % (a, rng.randrange(100)))
